@@ -208,14 +208,14 @@ impl Builtins {
         };
         if typ.as_ref() == "str" {
             stack.push((
-                Rc::new(P(Str(self.get_file_as_string(&path)?))),
+                Rc::new(P(Str(decorate_error!(pos => self.get_file_as_string(&path))?))),
                 pos.clone(),
             ));
         } else {
             stack.push((
                 Rc::new(match env.borrow().importer_registry.get_importer(&typ) {
                     Some(importer) => {
-                        let contents = self.get_file_as_bytes(&path)?;
+                        let contents = decorate_error!(pos => self.get_file_as_bytes(&path))?;
                         match importer.import(&contents) {
                             Ok(v) => v.into(),
                             Err(e) => return Err(Error::new(format!("{}", e).into(), pos)),
